@@ -735,6 +735,8 @@ class WMSLayer(WMSLayerBase):
         self.dimensions = dimensions
 
     def is_opaque(self, query):
+        if not self.renders_query(query):
+            return False
         return any(x.is_opaque(query) for x in self.map_layers)
 
     def renders_query(self, query):
@@ -744,6 +746,9 @@ class WMSLayer(WMSLayerBase):
 
     def map_layers_for_query(self, query):
         if not self.map_layers:
+            return []
+        if not self.renders_query(query):
+            # layer can be requested as part of a group layer
             return []
         return [(self.name, self.map_layers)]
 
